@@ -30,6 +30,13 @@ pub enum RequestOptions {
         // groups: Vec<EtcGroup>,
         shadow: Vec<EtcShadow>,
     },
+    /// verif-hooks (C43): like `Test`, for the external verification harness.
+    #[cfg(feature = "verif-hooks")]
+    Verif {
+        client: Option<DaemonClientBlocking>,
+        users: Vec<EtcUser>,
+        shadow: Vec<EtcShadow>,
+    },
 }
 
 thread_local! {
@@ -88,6 +95,19 @@ impl RequestOptions {
             } => {
                 if let Some(socket) = socket {
                     let client = DaemonClientBlocking::from(socket);
+                    let _ = CLIENT.replace(Some(client.clone()));
+                    Source::Daemon(client)
+                } else {
+                    Source::Fallback { users, shadow }
+                }
+            }
+            #[cfg(feature = "verif-hooks")]
+            RequestOptions::Verif {
+                client,
+                users,
+                shadow,
+            } => {
+                if let Some(client) = client {
                     let _ = CLIENT.replace(Some(client.clone()));
                     Source::Daemon(client)
                 } else {
